@@ -271,8 +271,9 @@ inductive ReachD {V : Type} (c : Cfg) (L : Layout) (W : Work V) : State → Maps
 
 /-! ### the synchronisation skeleton of a worker (`sigma_filter`, `_sf2`), regenerated from the AST -/
 
-/-- what a statement of the worker does, as far as the protocol and the shared maps are concerned -/
-inductive SEv | wait | reset | abort | wBkg | rBkg | wRms | rRms
+/-- what a statement of the worker does, as far as the protocol and the shared maps are concerned;
+    `waitT` is a `barrier.wait(timeout)`: a timed wait breaks the barrier when a stripe lags, although nobody failed -/
+inductive SEv | wait | reset | abort | wBkg | rBkg | wRms | rRms | waitT
   deriving DecidableEq, Repr
 
 /-- structured skeleton: `ifMask` branches on `domask`, `ifData` on anything else (either branch possible),
@@ -320,7 +321,7 @@ def Skel.paths (m : Bool) : Skel → List (List SEv × SEnd)
 /-- the generated file carries the skeleton as a token list (so that it needs no import of this file):
     `0 k` event k · `1` skip · `2` return · `3` raise · `4 a b` seq · `5 t e` ifMask · `6 t e` ifData · `7 b` loop · `8 b` call -/
 def sevOfNat : Nat → Option SEv
-  | 0 => some .wait | 1 => some .reset | 2 => some .abort | 3 => some .wBkg | 4 => some .rBkg | 5 => some .wRms | 6 => some .rRms
+  | 0 => some .wait | 1 => some .reset | 2 => some .abort | 3 => some .wBkg | 4 => some .rBkg | 5 => some .wRms | 6 => some .rRms | 7 => some .waitT
   | _ => none
 
 def Skel.parse : Nat → List Nat → Option (Skel × List Nat)
@@ -404,18 +405,38 @@ structure Handler where
   cls : String
   events : List SEv
   raises : Bool
+  /-- number of calls (anything that could itself raise) before `barrier.abort()` in the clause -/
+  before : Nat
   deriving DecidableEq, Repr
 
 /-- raw form used by the generated file: (class, event tokens, ends by raising) -/
-def Handler.ofRaw (r : String × List Nat × Bool) : Handler :=
-  { cls := r.1, events := r.2.1.map (fun k => (sevOfNat k).getD .reset), raises := r.2.2 }
+def Handler.ofRaw (r : String × List Nat × Bool × Nat) : Handler :=
+  { cls := r.1, events := r.2.1.map (fun k => (sevOfNat k).getD .reset), raises := r.2.2.1, before := r.2.2.2 }
 
-def sf2HandlersHand : List (String × List Nat × Bool) := [("BaseException", [2], true)]
+def sf2HandlersHand : List (String × List Nat × Bool × Nat) := [("BaseException", [2], true, 0)]
 
-/-- every way out of `_sf2` with an exception aborts the barrier first, and every exception is caught:
+/-- the arguments of the `Barrier(...)` constructor in `filter_mc_sharemem`: the source text of `parties`,
+    whether a timeout / an action is configured (`timeout`: seconds if a literal, 0 if present but not a literal) -/
+structure BarrierCtor where
+  parties : String
+  timeout : Option Nat
+  action : Bool
+  deriving DecidableEq, Repr
+
+def barrierCtorHand : String × Option Nat × Bool := ("len(ymaxs)", none, false)
+def BarrierCtor.ofRaw (r : String × Option Nat × Bool) : BarrierCtor := { parties := r.1, timeout := r.2.1, action := r.2.2 }
+
+/-- the protocol model's barrier waits without limit and has no action.  A timeout would add a transition (a
+    lagging stripe breaks the barrier) that the theorems exclude.  (That `parties` equals the number of submitted
+    tasks is not pinned to one spelling of the source — `len(ymaxs)`, `nstripes`, … — but checked by the layout
+    sweep on every case: Spec `parties-vs-tasks`.) -/
+def barrierCtorOK (b : BarrierCtor) : Bool := b.timeout.isNone && !b.action
+
+/-- every way out of `_sf2` with an exception aborts the barrier first — before any other call that could
+    itself raise (a deprecated `logging.warn` under `-W error`, …) — and every exception is caught:
     the first clause that is not abort-and-raise must not exist, and some clause catches everything -/
 def handlersOK (hs : List Handler) : Bool :=
-  hs.all (fun h => h.events == [.abort] && h.raises) && hs.any (fun h => h.cls == "BaseException" || h.cls == "")
+  hs.all (fun h => h.events == [.abort] && h.raises && h.before == 0) && hs.any (fun h => h.cls == "BaseException" || h.cls == "")
 
 /-! ### `try … finally` of the parent, as a small control-flow model -/
 
